@@ -12,6 +12,9 @@ import Iauthd.Proto.Table
 namespace Iauthd.Properties
 open Iauthd Iauthd.Proto
 
+-- the derived equality test of configuration nodes is equality
+deriving instance ReflBEq, LawfulBEq for CNode
+
 /-- how a configuration is delivered: at start-up each module scans its section once; on a reload
     `iauth_xquery` rescans at every hook run of the merge (`rescanWalk`), `iauth_class` rebuilds its
     rules when its section differs from the live one in any way.  (On the pinned tree only membership
@@ -183,6 +186,28 @@ theorem C17_reloads_fresh (s0 s0' : State) (h0 : s0.svcs = []) (h0' : s0'.svcs =
   have c := (C17_reflects_start s0' h0' _ hlast).2.2 name t
   rw [a, c]
 
+/-- **the same content again changes nothing**: a reload whose sections are the live ones shows
+    neither module anything and leaves the daemon's state as it was (but for the timeout, which
+    is the file's) -/
+theorem C17_same_content_silent (s : State) (live new : Config)
+    (hx : mergeSection live.xq new.xq = live.xq) (hc : mergeSection live.cls new.cls = live.cls) :
+    (applyConfig s live new false).1 = { s with timeout := new.timeout } := by
+  unfold applyConfig
+  dsimp only
+  rw [hx, hc]
+  unfold deliverXq
+  simp only [Bool.false_eq_true, if_false, rescanWalk_same, List.foldl_nil, bne_self_eq_false, Bool.or_self,
+    Bool.and_false, ite_self]
+
+/-- loading the same file twice: the second load changes nothing at all -/
+theorem C17_same_file_twice (s : State) (live f : Config) (first : Bool) :
+    (applyConfig (applyConfig s live f first).1 (applyConfig s live f first).2 f false).1 = (applyConfig s live f first).1 := by
+  rw [C17_same_content_silent _ _ _ rfl rfl]
+  have ht := applyConfig_timeout s live f first
+  generalize (applyConfig s live f first).1 = s1 at ht
+  cases s1
+  simp_all
+
 /-! ### for every file -/
 
 /-- what a module is handed of a file's section is a good section: the configuration set holds one
@@ -230,8 +255,6 @@ theorem C17_services_loads : ∀ (files : List Config) (s : State) (live : Confi
       (fun f' hf' => hn f' (List.mem_cons_of_mem _ hf'))
 
 /-! ### the rule table over a whole history -/
-
-deriving instance ReflBEq, LawfulBEq for CNode
 
 /-- the rules a class section compiles to -/
 def compileSec (sec : List CNode) : List Rule := (sec.filter (!·.isString)).map compileRule
